@@ -204,8 +204,8 @@ theorem cascade_filter_rows (L S : List Block) (q : Block → Bool)
       simp [cascade, rowsOf, List.filter_append]
     rw [hsplit, hrows, ih']
     by_cases hq : q b = true
-    · simp [List.filter_cons, hq, rowsOf]
-    · simp [List.filter_cons, hq, rowsOf]
+    · simp [hq, rowsOf]
+    · simp [hq, rowsOf]
 
 /-- deleting blocks of a chain by a predicate deletes exactly their rows -/
 theorem cascade_filter (S : List Block) (p : Block → Bool) (hS : Sorted S) :
